@@ -40,8 +40,8 @@ for be in BACKS:
     UNITS.append(Unit(be + '.exit_pt.ForwardHelper.true', ['C09', 'C07', 'C13'], be,
         Part(SM, ['struct exit_pt', 'struct ForwardHelper < true , Dummy >'], 'static void helper ( ForwardEvent const & incomingEvent , forwarding_function & forward_fct )'),
         'void forward_helper(event_t incomingEvent, fwd_fct_t* forward_fct, _Bool OwnEvent)', 'entryexit_back.spec.h',
-        xform=back_xform([], refparams=(), rewrites=[dict(name='function-bool', pat='if ( forward_fct )', rep='if ( forward_fct -> set )', min=1, max=1),
-                                                     dict(name='function-call', pat='forward_fct ( incomingEvent ) ;', rep='call_forward ( forward_fct , incomingEvent ) ;', min=1, max=1)]), replay=['hist']))
+        xform=back_xform([], refparams=(), rewrites=[dict(name='function-bool', pat='( forward_fct )', rep='( forward_fct -> set )', min=0, max=2), dict(name='function-bool-not', pat='! forward_fct', rep='! forward_fct -> set', min=0, max=2),
+                                                     dict(name='function-call', pat='forward_fct ( incomingEvent ) ;', rep='call_forward ( forward_fct , incomingEvent ) ;', min=0, max=2)]), replay=['hist']))
 
 for be in BACKS:
     SM = be + '/state_machine.hpp'
